@@ -279,7 +279,13 @@ func Load(ctx context.Context, wd string, env []string, tags string, patterns []
 				ec.add(notePositionAll(fset.Position(obj.Pos()), errs)...)
 				continue
 			}
-			pset := item.(*ProviderSet)
+			pset, ok := item.(*ProviderSet)
+			if !ok {
+				// E.g. var Set = wire.ProviderSet{}: has the provider set type
+				// but was not built by wire.NewSet.
+				ec.add(notePosition(fset.Position(obj.Pos()), fmt.Errorf("%s is not a provider set built with wire.NewSet", obj.Name())))
+				continue
+			}
 			// pset.Name may not equal name, since it could be an alias to
 			// another provider set.
 			id := ProviderSetID{ImportPath: pset.PkgPath, VarName: name}
